@@ -61,6 +61,74 @@ int main() {
 '''
 
 
+# ---- helpers kept for other translators (gen_c08, gen_c09): constant evaluation over the AST -----------------------
+import ast, struct
+
+def _eval(node, env):
+    """tiny constant-expression evaluator (ints, names already bound, + - * // << | , struct.calcsize)"""
+    if isinstance(node, ast.Constant):
+        return node.value
+    if isinstance(node, ast.Name):
+        return env[node.id]
+    if isinstance(node, ast.Attribute) and isinstance(node.value, ast.Name):
+        return env[node.attr]
+    if isinstance(node, ast.BinOp):
+        a, b = _eval(node.left, env), _eval(node.right, env)
+        ops = {ast.Add: lambda: a + b, ast.Sub: lambda: a - b, ast.Mult: lambda: a * b, ast.FloorDiv: lambda: a // b,
+               ast.LShift: lambda: a << b, ast.BitOr: lambda: a | b, ast.Pow: lambda: a ** b}
+        return ops[type(node.op)]()
+    if isinstance(node, ast.Tuple):
+        return tuple(_eval(e, env) for e in node.elts)
+    if isinstance(node, ast.Call) and isinstance(node.func, ast.Attribute) and node.func.attr == 'calcsize':
+        return struct.calcsize(_eval(node.args[0], env))
+    if isinstance(node, ast.Call) and isinstance(node.func, ast.Name) and node.func.id == 'bytes':
+        return bytes(_eval(node.args[0], env))
+    raise ValueError('gen_fe: cannot evaluate %s' % ast.dump(node))
+
+
+def class_consts(path, cls, names):
+    tree = ast.parse(vf.repo_file(path))
+    for n in ast.walk(tree):
+        if isinstance(n, ast.ClassDef) and n.name == cls:
+            env = {}
+            for st in n.body:
+                tgt = None
+                if isinstance(st, ast.Assign) and len(st.targets) == 1 and isinstance(st.targets[0], ast.Name):
+                    tgt, val = st.targets[0].id, st.value
+                elif isinstance(st, ast.AnnAssign) and isinstance(st.target, ast.Name) and st.value is not None:
+                    tgt, val = st.target.id, st.value
+                if tgt:
+                    try:
+                        env[tgt] = _eval(val, env)
+                    except Exception:
+                        pass
+            missing = [k for k in names if k not in env]
+            if missing:
+                raise RuntimeError('gen_fe: %s.%s: cannot determine %r' % (path, cls, missing))
+            return {k: env[k] for k in names}
+    raise RuntimeError('gen_fe: class %s not found in %s' % (cls, path))
+
+
+def module_consts(path, names):
+    tree = ast.parse(vf.repo_file(path))
+    env = {}
+    for st in tree.body:
+        if isinstance(st, ast.Assign) and len(st.targets) == 1 and isinstance(st.targets[0], ast.Name):
+            try:
+                env[st.targets[0].id] = _eval(st.value, env)
+            except Exception:
+                pass
+    missing = [k for k in names if k not in env]
+    if missing:
+        raise RuntimeError('gen_fe: %s: cannot determine %r' % (path, missing))
+    return {k: env[k] for k in names}
+
+
+def cint(s):
+    return int(s.strip().rstrip('uUlL'), 0)
+
+
+
 def crc_ref(poly, x, data, init):
     """reflected table-driven CRC as Base/Crc32.v models it"""
     c = init ^ x
